@@ -31,7 +31,7 @@ TRUSTED = ["sympy", "CFG event words"]
 EPS_FACTORS = {"CONVERGENCE_DM_ERROR_FACTOR": 2.0, "CONVERGENCE_DM_ELEMENT_FACTOR": 15.0, "CONVERGENCE_DIIS_FACTOR": 50.0}
 
 
-def _threshold_integrity(ctx):
+def _threshold_integrity(ctx, rid="R4"):
     """every load of the `eps` parameter in scf_loop.py is (a) an operand of a comparison, alone or times an inventoried module constant,
     (b) an argument handed on to a callee, or (c) a dtype/device conversion of itself; nothing floors, caps or rescales it."""
     from ..exprs import NotConst, fold
@@ -43,7 +43,7 @@ def _threshold_integrity(ctx):
             got = fold(v) if v is not None else None
         except (NotConst, TypeError):
             got = None
-        ctx.check(got is not None and 1.0 <= got <= want, "R4", m, v if v is not None else m.tree, "<module>", nm, f"{nm} = {got} (at most the inventoried {want})",
+        ctx.check(got is not None and 1.0 <= got <= want, rid, m, v if v is not None else m.tree, "<module>", nm, f"{nm} = {got} (at most the inventoried {want})",
                   f"{nm} = {got}: the convergence test accepts errors {got} x scf_eps (inventoried bound {want}); results of different solver paths no longer agree within a small multiple of the threshold")
     n = 0
     for qual, f in m.functions.items():
@@ -58,7 +58,7 @@ def _threshold_integrity(ctx):
             n += 1
             if isinstance(x.ctx, ast.Store):
                 ok = isinstance(st, ast.Assign) and isinstance(st.value, ast.Call) and (call_name(st.value) or "") in ("torch.as_tensor", "torch.tensor") and st.value.args and norm(st.value.args[0]) == "eps"
-                ctx.check(ok, "R4", m, st, qual, st, "eps is only re-bound to a tensor copy of itself",
+                ctx.check(ok, rid, m, st, qual, st, "eps is only re-bound to a tensor copy of itself",
                           f"`{short(norm(st))}` changes the requested convergence threshold inside {qual}: below/above some value the solver silently converges to a different tolerance than the caller asked for")
                 continue
             ok = False
@@ -74,7 +74,7 @@ def _threshold_integrity(ctx):
                 ok = par.arg in ("eps",)
             elif isinstance(par, (ast.FormattedValue, ast.JoinedStr)):
                 ok = True
-            ctx.check(ok, "R4", m, st, qual, f"eps in `{short(norm(st))}`", f"eps is used as a comparison bound or handed on unchanged ({type(par).__name__})",
+            ctx.check(ok, rid, m, st, qual, f"eps in `{short(norm(st))}`", f"eps is used as a comparison bound or handed on unchanged ({type(par).__name__})",
                       f"`{short(norm(st))}` derives a different threshold from the requested eps in {qual}")
     # the configured threshold itself may only be tightened on its way to the solver (never loosened)
     bas = repo.mod("seqm/basics.py")
@@ -99,11 +99,11 @@ def _threshold_integrity(ctx):
                             at = norm(a).replace(" ", "")
                             if pol and at in (f"{tt}>{vt}", f"{vt}<{tt}", f"{tt}>={vt}", f"{vt}<={tt}"):
                                 ok, why = True, f"guarded by `{norm(a)}`"
-                    ctx.check(ok, "R4", bas, st, q, st, f"{q}: the requested scf_eps is only ever tightened ({why})",
+                    ctx.check(ok, rid, bas, st, q, st, f"{q}: the requested scf_eps is only ever tightened ({why})",
                               f"{q}: `{short(norm(st), 80)}` can loosen the SCF threshold the user asked for (it is not `old = min(old, bound)` nor guarded by `old > bound`): "
                               f"with this setting, tightening scf_eps below the bound no longer changes the result and solver paths stop agreeing within a multiple of the requested threshold")
-    ctx.check(n_w >= 1, "R4", bas, bas.tree, "<module>", "scf_eps rewrites", f"{n_w} rewrite(s) of the configured scf_eps inventoried", "rewrite sites of scf_eps not found")
-    ctx.floor("R4", 15)
+    ctx.check(n_w >= 1, rid, bas, bas.tree, "<module>", "scf_eps rewrites", f"{n_w} rewrite(s) of the configured scf_eps inventoried", "rewrite sites of scf_eps not found")
+    ctx.floor(rid, 15)
 
 
 def run(ctx):
